@@ -11,10 +11,14 @@ import (
 )
 
 type ItemContainer struct {
-	table  []byte
+	table []byte
+	// key is the key as the user wrote it
 	key    []byte
 	item   interface{}
 	cursor []byte
+	// verKey is the key as stored in the element keys (with the value version in some expire
+	// policies), the next scan has to continue from it
+	verKey []byte
 }
 
 type itemFunc func(*engine.RangeLimitedIterator, glob.Glob) (*ItemContainer, error)
@@ -93,8 +97,12 @@ func (db *RockDB) kvFullScan(key []byte, count int,
 			} else if r != nil && !r.Match(string(k)) {
 				return nil, errNotMatch
 			} else {
-				v := it.Value()
-				return &ItemContainer{t, k, v, nil}, nil
+				// the stored value carries the value header in some expire policies
+				h, err := db.expiration.decodeRawValue(KVType, it.Value())
+				if err != nil {
+					return nil, err
+				}
+				return &ItemContainer{t, k, h.UserData, nil, k}, nil
 			}
 		})
 }
@@ -104,9 +112,11 @@ func (db *RockDB) hashFullScan(key []byte, count int,
 
 	return db.fullScanCommon(HashType, key, count, match,
 		func(it *engine.RangeLimitedIterator, r glob.Glob) (*ItemContainer, error) {
-			var t, k, f []byte
+			var t, vk, k, f []byte
 			var err error
-			if t, k, f, err = decodeFullScanKey(HashType, it.Key()); err != nil {
+			if t, vk, f, err = decodeFullScanKey(HashType, it.Key()); err != nil {
+				return nil, err
+			} else if k, _, err = db.expiration.decodeFromVersionKey(HashType, vk); err != nil {
 				return nil, err
 			} else if r != nil && !r.Match(string(k)) {
 				return nil, errNotMatch
@@ -115,7 +125,7 @@ func (db *RockDB) hashFullScan(key []byte, count int,
 					Field: f,
 					Value: it.Value(),
 				}
-				return &ItemContainer{t, k, v, f}, nil
+				return &ItemContainer{t, k, v, f, vk}, nil
 			}
 		})
 }
@@ -125,15 +135,17 @@ func (db *RockDB) listFullScan(key []byte, count int,
 
 	return db.fullScanCommon(ListType, key, count, match,
 		func(it *engine.RangeLimitedIterator, r glob.Glob) (*ItemContainer, error) {
-			var t, k, seq []byte
+			var t, vk, k, seq []byte
 			var err error
-			if t, k, seq, err = decodeFullScanKey(ListType, it.Key()); err != nil {
+			if t, vk, seq, err = decodeFullScanKey(ListType, it.Key()); err != nil {
+				return nil, err
+			} else if k, _, err = db.expiration.decodeFromVersionKey(ListType, vk); err != nil {
 				return nil, err
 			} else if r != nil && !r.Match(string(k)) {
 				return nil, errNotMatch
 			} else {
 				v := it.Value()
-				return &ItemContainer{t, k, v, seq}, nil
+				return &ItemContainer{t, k, v, seq, vk}, nil
 			}
 		})
 }
@@ -143,14 +155,16 @@ func (db *RockDB) setFullScan(key []byte, count int,
 
 	return db.fullScanCommon(SetType, key, count, match,
 		func(it *engine.RangeLimitedIterator, r glob.Glob) (*ItemContainer, error) {
-			var t, k, m []byte
+			var t, vk, k, m []byte
 			var err error
-			if t, k, m, err = decodeFullScanKey(SetType, it.Key()); err != nil {
+			if t, vk, m, err = decodeFullScanKey(SetType, it.Key()); err != nil {
+				return nil, err
+			} else if k, _, err = db.expiration.decodeFromVersionKey(SetType, vk); err != nil {
 				return nil, err
 			} else if r != nil && !r.Match(string(k)) {
 				return nil, errNotMatch
 			} else {
-				return &ItemContainer{t, k, m, m}, nil
+				return &ItemContainer{t, k, m, m, vk}, nil
 			}
 		})
 }
@@ -160,10 +174,12 @@ func (db *RockDB) zsetFullScan(key []byte, count int,
 
 	return db.fullScanCommon(ZSetType, key, count, match,
 		func(it *engine.RangeLimitedIterator, r glob.Glob) (*ItemContainer, error) {
-			var t, k, m []byte
+			var t, vk, k, m []byte
 			var err error
 			var s float64
-			if t, k, m, err = zDecodeSetKey(it.Key()); err != nil {
+			if t, vk, m, err = zDecodeSetKey(it.Key()); err != nil {
+				return nil, err
+			} else if k, _, err = db.expiration.decodeFromVersionKey(ZSetType, vk); err != nil {
 				return nil, err
 			} else if r != nil && !r.Match(string(k)) {
 				return nil, errNotMatch
@@ -174,7 +190,7 @@ func (db *RockDB) zsetFullScan(key []byte, count int,
 				}
 
 				v := common.ScorePair{Member: m, Score: s}
-				return &ItemContainer{t, k, v, m}, nil
+				return &ItemContainer{t, k, v, m, vk}, nil
 			}
 		})
 }
@@ -258,7 +274,7 @@ func (db *RockDB) fullScanCommon(tp byte, key []byte, count int, match string,
 				}
 			}
 		} else {
-			nextCursor, _ = encodeFullScanCursor(container.key, container.cursor)
+			nextCursor, _ = encodeFullScanCursor(container.verKey, container.cursor)
 		}
 	}
 	return &common.FullScanResult{
